@@ -62,6 +62,7 @@ def main(argv=None):
     ap.add_argument("--replay", default=None)
     ap.add_argument("--root", default=os.environ.get("VERIF_ROOT", "/repo"))
     ap.add_argument("--no-write", action="store_true")
+    ap.add_argument("--no-canaries", action="store_true", help="developer option: skip the canary self-test")
     args = ap.parse_args(argv)
     try:
         seed = int(os.environ.get("VERIF_SEED", "0") or 0)
@@ -78,7 +79,7 @@ def main(argv=None):
             only = rec.get("construct")
             print("replaying rule=%s construct=%s" % (rec.get("rule"), only))
         rc, _ = run_property(args.prop, args.root, args.tier, seed, only_construct=only,
-                             write=not args.no_write and not args.replay)
+                             write=not args.no_write and not args.replay, canaries=not args.no_canaries)
         return rc
     except AnalysisError as e:
         print("ANALYSIS-ERROR property=%s %s" % (args.prop, e))
